@@ -135,6 +135,14 @@ def run(prop, tier, verdict):
     rl = vlib.tlc_must_hold('Session', 'Session_live.cfg', workdir=wd, workers=8, timeout=600)
     cov['liveness'] = 'EventuallyDone under WF(Fw), %d distinct states' % rl['distinct']
     log('[sess] model check %s: %d distinct states, %d generated, depth %s (%.0fs)' % (cfg, r['distinct'], r['generated'], r.get('depth'), r['wall_s']))
+    if prop == 'C02' or tier == 'thorough':
+        # a hostile remote that answers a call it has not received yet (EarlyReplies): the repaired bindReply (RecheckFix) keeps
+        # "done at most once"; with the repair switched off TLC must refute it (the model still knows defect f93528b)
+        re_ = vlib.tlc_must_hold('Session', 'Session_early.cfg', workdir=wd, workers=14, timeout=1500)
+        viol, _, _r = vlib.counterexample('Session', 'Session_early_asis.cfg', var='status', workdir=wd, workers=4, timeout=600)
+        if not viol:
+            raise Broken('Session.tla with RecheckFix switched off no longer violates DoneAtMostOnce under early replies')
+        cov['early_replies'] = 'Session_early.cfg (replies to calls not yet written): %d distinct states, all invariants hold; Session_early_asis.cfg: DoneAtMostOnce refuted without the re-check of bindReply' % re_['distinct']
     # 2. scenarios
     nsim = 400 if tier == 'thorough' else 60
     hists, rs = vlib.sim_behaviours('SessionGen', 'SessionGen_sim.cfg', nsim, 80, seedv, workdir=wd)
